@@ -13,6 +13,7 @@ class ScriptWorld:
         self.tls = tls
         self.password = password
         self.c = {}
+        self.nick = {}
         self.n = 0
 
     def connect(self, name, nick, user=None, caps=None, realname=None):
@@ -21,13 +22,19 @@ class ScriptWorld:
         self.c[name] = cl
         burst = cl.register(nick, user or nick, realname=realname or ("R " + nick), password=self.password,
                             caps=caps)
+        self.nick[name] = nick
         return burst
 
     def do(self, name, line):
         self.n += 1
         cl = self.c[name]
         cl.send(line)
-        return cl.ping("b%d" % self.n)
+        lines = cl.ping("b%d" % self.n)
+        w = line.split()
+        if len(w) >= 2 and w[0].upper() == "NICK" and not any(m.is_numeric and m.verb[0] in "45" for m in lines) \
+                and not any(m.verb.startswith("ERROR") for m in lines):
+            self.nick[name] = w[1].lstrip(":")
+        return lines
 
     def settle(self):
         """each client pings twice: queued messages of earlier commands are drained"""
@@ -36,11 +43,12 @@ class ScriptWorld:
             if cl.eof:
                 continue
             self.n += 1
-            tag = "q%d" % self.n
+            tag = "SETTLE%d" % self.n
             # a message to oneself travels through the own queue: FIFO after everything queued before
-            cl.send("PING " + tag)
+            cl.send("PRIVMSG %s :%s" % (self.nick[name], tag))
             try:
-                out[name] = cl.read_until(lambda m: m.verb == "PONG" and m.params[-1:] == [tag])[:-1]
+                got = cl.read_until(lambda m: m.verb == "PRIVMSG" and m.params[-1:] == [tag])[:-1]
+                out[name] = [m for m in got if not (m.verb == "301" and m.params[1:2] == [self.nick[name]])]
             except (wire.Closed, wire.Timeout):
                 out[name] = []
         return out
